@@ -1,2 +1,484 @@
-// Package c07: correspondence harness for property C07 (stub — registers nothing yet).
+// Package c07: run numbers are unique and strictly increasing.
+//
+// Input  : (n (raft entry) sched)
+//
+//	n      number of callers (ids 0..n-1), each makes ONE call of the real code
+//	entry  - | (raw idx)                         -- the Consul key before the schedule
+//	sched  ((r c) | (w c) | (e c) | (f raw) | (d) | (x c))*
+//	         r c  Consul answers c's consistent GET (c is launched here)
+//	         w c  Consul processes c's parked write; c returns
+//	         e c  c's outstanding request is answered 500, nothing applied
+//	         f raw / d   somebody else PUTs / DELETEs the key (through the real client)
+//	         x c  c dies: its parked write is never processed
+//
+// Obs    : (((c status start end reqs) …) (raft entry))   see lean/Driver/C07.lean
+//
+// The schedule is replayed EXACTLY on the implementation: the Consul simulator parks every HTTP
+// request and the controller releases them in schedule order (consul.go, exec.go).
 package c07
+
+import (
+	"fmt"
+	"strconv"
+
+	"verifharness/fw"
+	"verifharness/rng"
+	"verifharness/sx"
+)
+
+// ---- rigs ----------------------------------------------------------------------------
+
+const nRigs = 8
+
+var rigs chan *rig
+
+func setup(string) error {
+	if rigs != nil {
+		return nil
+	}
+	rigs = make(chan *rig, nRigs)
+	for i := 0; i < nRigs; i++ {
+		g, err := newRig()
+		if err != nil {
+			return err
+		}
+		rigs <- g
+	}
+	return nil
+}
+
+func teardown() {
+	if rigs == nil {
+		return
+	}
+	for i := 0; i < nRigs; i++ {
+		(<-rigs).close()
+	}
+	rigs = nil
+}
+
+func runImpl(input string) (obs string, err error) {
+	g := <-rigs
+	defer func() {
+		if r := recover(); r != nil {
+			// a panic of the code under test leaves the rig in an unknown state: replace it
+			g.close()
+			if g2, e2 := newRig(); e2 == nil {
+				rigs <- g2
+			}
+			panic(r)
+		}
+		if err != nil {
+			// after infrastructure trouble start from a fresh simulator
+			g.close()
+			if g2, e2 := newRig(); e2 == nil {
+				g = g2
+			}
+		}
+		rigs <- g
+	}()
+	return g.runCase(input)
+}
+
+// ---- a tiny bookkeeping copy of the protocol, used ONLY to steer the generator ---------------
+// (which steps are enabled, what a non-lowering foreign value is). Nothing is compared with it.
+
+const maxU32 = 4294967295
+
+func parseU32(s string) (uint64, bool) {
+	if s == "" {
+		return 0, false
+	}
+	for _, c := range s {
+		if c < '0' || c > '9' {
+			return 0, false
+		}
+	}
+	v, err := strconv.ParseUint(s, 10, 32)
+	return v, err == nil
+}
+
+type simCaller struct {
+	phase  int
+	v, idx uint64
+}
+
+type sim struct {
+	present   bool
+	raw       string
+	idx, raft uint64
+	cs        []simCaller
+}
+
+func (m *sim) level() uint64 {
+	if !m.present {
+		return 0
+	}
+	v, _ := parseU32(m.raw)
+	return v
+}
+
+func (m *sim) write(raw string) { m.raft++; m.present, m.raw, m.idx = true, raw, m.raft }
+
+func (m *sim) apply(st *sx.Node) {
+	kind := st.At(0).Str()
+	switch kind {
+	case "f":
+		m.write(st.At(1).Str())
+		return
+	case "d":
+		m.raft++
+		m.present = false
+		return
+	}
+	c := &m.cs[st.At(1).Int()]
+	switch kind {
+	case "r":
+		if c.phase == phIdle {
+			if !m.present {
+				c.phase, c.v, c.idx = phPending, 0, 0
+			} else if v, ok := parseU32(m.raw); ok {
+				c.phase, c.v, c.idx = phPending, v, m.idx
+			} else {
+				c.phase = phDone
+			}
+		}
+	case "w":
+		if c.phase == phPending {
+			ok := (!m.present && c.idx == 0) || (m.present && c.idx != 0 && c.idx == m.idx)
+			if ok {
+				m.write(strconv.FormatUint(uint64(uint32(c.v)+1), 10))
+			}
+			c.phase = phDone
+		}
+	case "e":
+		if c.phase == phIdle || c.phase == phPending {
+			c.phase = phDone
+		}
+	case "x":
+		if c.phase == phIdle || c.phase == phPending {
+			c.phase = phDead
+		}
+	}
+}
+
+// ---- generator -------------------------------------------------------------------------
+
+func stepC(kind string, c int) *sx.Node { return sx.L(sx.A(kind), sx.I(c)) }
+func stepF(raw string) *sx.Node         { return sx.L(sx.A("f"), sx.A(raw)) }
+func stepD() *sx.Node                   { return sx.L(sx.A("d")) }
+
+func storeNode(raft uint64, raw string, idx uint64, present bool) *sx.Node {
+	if !present {
+		return sx.L(sx.U64(raft), sx.A("-"))
+	}
+	return sx.L(sx.U64(raft), sx.L(sx.A(raw), sx.U64(idx)))
+}
+
+func mkInput(n int, store *sx.Node, sched []*sx.Node) string {
+	return sx.L(sx.I(n), store, sx.L(sched...)).String()
+}
+
+// interleavings enumerates all merges of the n two-step programs [r c, w c].
+func interleavings(n int) [][]*sx.Node {
+	var out [][]*sx.Node
+	pc := make([]int, n)
+	var cur []*sx.Node
+	var rec func()
+	rec = func() {
+		done := true
+		for c := 0; c < n; c++ {
+			if pc[c] < 2 {
+				done = false
+				kind := "r"
+				if pc[c] == 1 {
+					kind = "w"
+				}
+				pc[c]++
+				cur = append(cur, stepC(kind, c))
+				rec()
+				cur = cur[:len(cur)-1]
+				pc[c]--
+			}
+		}
+		if done {
+			out = append(out, append([]*sx.Node{}, cur...))
+		}
+	}
+	rec()
+	return out
+}
+
+func events(n int) []*sx.Node {
+	ev := []*sx.Node{stepF("0"), stepF("41"), stepF("42"), stepF("1000"), stepF("x1"), stepF(""), stepD()}
+	for c := 0; c < n; c++ {
+		ev = append(ev, stepC("x", c), stepC("e", c))
+	}
+	return ev
+}
+
+func insertAt(s []*sx.Node, pos int, e *sx.Node) []*sx.Node {
+	out := make([]*sx.Node, 0, len(s)+1)
+	out = append(out, s[:pos]...)
+	out = append(out, e)
+	return append(out, s[pos:]...)
+}
+
+// exhaustive part: every interleaving of n complete calls, alone and with `extra` events from
+// events(n) inserted at every position, from each of the given initial stores.
+func exhaustive(n, extra int, stores []*sx.Node, tag string) []fw.Case {
+	type item struct {
+		s      []*sx.Node
+		minPos int // later insertions go at or after the previous one: no pair is enumerated twice
+	}
+	var cs []fw.Case
+	ev := events(n)
+	var layer, all []item
+	for _, s := range interleavings(n) {
+		layer = append(layer, item{s, 0})
+	}
+	all = append(all, layer...)
+	for k := 0; k < extra; k++ {
+		var next []item
+		for _, it := range layer {
+			for pos := it.minPos; pos <= len(it.s); pos++ {
+				for _, e := range ev {
+					next = append(next, item{insertAt(it.s, pos, e), pos + 1})
+				}
+			}
+		}
+		all = append(all, next...)
+		layer = next
+	}
+	for _, st := range stores {
+		for _, it := range all {
+			cs = append(cs, fw.Case{Input: mkInput(n, st, it.s), Tags: []string{tag}})
+		}
+	}
+	return cs
+}
+
+var junk = []string{"", "abc", "-1", "+7", "4294967296", "99999999999999999999", "007", " 5", "5 ", "1_0", "0x1f", "1e3", "４２"}
+
+func genRandom(r *rng.R, maxCallers, maxLen int) fw.Case {
+	n := r.Range(1, maxCallers)
+	tags := []string{}
+	m := &sim{cs: make([]simCaller, n)}
+	// initial store
+	switch {
+	case r.P(1, 6):
+		m.raft = uint64(r.N(4))
+		tags = append(tags, "init=absent")
+	case r.P(1, 8):
+		m.present, m.raw = true, strconv.FormatUint(maxU32-uint64(r.N(4)), 10)
+		tags = append(tags, "init=near-wrap")
+	case r.P(1, 12):
+		m.present, m.raw = true, rng.Pick(r, junk)
+		tags = append(tags, "init=junk")
+	default:
+		m.present, m.raw = true, strconv.Itoa(r.N(600000))
+		tags = append(tags, "init=number")
+	}
+	if m.present {
+		m.idx = uint64(r.Range(1, 50))
+		m.raft = m.idx + uint64(r.N(5))
+	}
+	store := storeNode(m.raft, m.raw, m.idx, m.present)
+	length := r.Range(1, maxLen)
+	var sched []*sx.Node
+	lowered, wrapF, faults := false, false, false
+	for i := 0; i < length; i++ {
+		var st *sx.Node
+		x := r.N(100)
+		switch {
+		case x < 72: // advance some caller's program (mostly an enabled step)
+			c := r.N(n)
+			for tries := 0; tries < 3 && m.cs[c].phase >= phDone; tries++ {
+				c = r.N(n)
+			}
+			switch {
+			case r.P(1, 12):
+				st = stepC(rng.Pick(r, []string{"r", "w"}), c) // possibly a no-op
+			case m.cs[c].phase == phIdle:
+				st = stepC("r", c)
+			default:
+				st = stepC("w", c)
+			}
+		case x < 78:
+			st = stepC("e", r.N(n))
+			faults = true
+		case x < 84:
+			st = stepC("x", r.N(n))
+			faults = true
+		case x < 98:
+			lv := m.level()
+			switch y := r.N(20); {
+			case y < 13: // non-lowering
+				nv := lv + uint64(r.N(3))
+				if r.P(1, 3) {
+					nv = lv + uint64(r.N(100000))
+				}
+				if r.P(1, 25) {
+					nv = maxU32 - uint64(r.N(3))
+					wrapF = true
+				}
+				if nv > maxU32 {
+					nv = maxU32
+				}
+				if nv < lv {
+					nv = lv
+				}
+				st = stepF(strconv.FormatUint(nv, 10))
+			case y < 17: // lowering
+				if lv > 0 {
+					st = stepF(strconv.FormatUint(uint64(r.N(int(min(lv, 1<<30)))), 10))
+					lowered = true
+				} else {
+					st = stepF("0")
+				}
+			default:
+				st = stepF(rng.Pick(r, junk))
+				if lv > 0 {
+					lowered = true
+				}
+			}
+		default:
+			st = stepD()
+			if m.level() > 0 {
+				lowered = true
+			}
+		}
+		m.apply(st)
+		sched = append(sched, st)
+	}
+	tags = append(tags, fmt.Sprintf("callers=%d", n), fmt.Sprintf("len~%d", (length+9)/10*10))
+	if lowered {
+		tags = append(tags, "foreign-lowers")
+	}
+	if wrapF {
+		tags = append(tags, "foreign-to-max")
+	}
+	if faults {
+		tags = append(tags, "crash-or-http-fault")
+	}
+	return fw.Case{Input: mkInput(n, store, sched), Tags: append([]string{"random"}, tags...)}
+}
+
+var exhStores = []*sx.Node{storeNode(0, "", 0, false), storeNode(7, "41", 5, true)}
+var wrapStores = []*sx.Node{storeNode(9, "4294967294", 9, true), storeNode(9, "4294967295", 9, true)}
+
+func generate(tier string, r *rng.R) []fw.Case {
+	var cs []fw.Case
+	// exhaustive short schedules
+	cs = append(cs, exhaustive(1, 2, exhStores, "exh:n=1,+2ev")...)
+	cs = append(cs, exhaustive(2, 1, exhStores, "exh:n=2,+1ev")...)
+	cs = append(cs, exhaustive(3, 1, exhStores, "exh:n=3,+1ev")...)
+	cs = append(cs, exhaustive(4, 0, exhStores, "exh:n=4")...)
+	cs = append(cs, exhaustive(2, 1, wrapStores, "exh:n=2,+1ev,wrap-region")...)
+	cs = append(cs, exhaustive(3, 0, wrapStores, "exh:n=3,wrap-region")...)
+	nRandom, maxCallers, maxLen := 6000, 8, 30
+	if tier == "thorough" {
+		cs = append(cs, exhaustive(2, 2, exhStores, "exh:n=2,+2ev")...)
+		cs = append(cs, exhaustive(3, 2, exhStores[1:], "exh:n=3,+2ev")...)
+		cs = append(cs, exhaustive(4, 1, exhStores[1:], "exh:n=4,+1ev")...)
+		cs = append(cs, exhaustive(5, 0, exhStores[1:], "exh:n=5")...)
+		nRandom, maxCallers, maxLen = 100000, 12, 60
+	} else {
+		cs = append(cs, exhaustive(2, 2, exhStores[1:], "exh:n=2,+2ev")...)
+	}
+	for i := 0; i < nRandom; i++ {
+		cs = append(cs, genRandom(r.Fork(), maxCallers, maxLen))
+	}
+	return cs
+}
+
+// non-trivial: at least two calls were launched, at least one number was handed out, and the
+// schedule is not a plain sequence of undisturbed calls (a refused CAS, an error, a dead or
+// pending caller, or a foreign write/delete occurred).
+func nontrivial(input, obs string) bool {
+	in, err := sx.Parse(input)
+	if err != nil {
+		return false
+	}
+	o, err := sx.Parse(obs)
+	if err != nil {
+		return false
+	}
+	launched, oks, disturbed := 0, 0, false
+	for _, c := range o.At(0).List {
+		if c.At(2).Str() != "-" {
+			launched++
+		}
+		st := c.At(1)
+		if st.IsList && st.At(0).Str() == "ok" {
+			oks++
+		} else if st.Str() != "idle" {
+			disturbed = true
+		}
+	}
+	for _, st := range in.At(2).List {
+		if k := st.At(0).Str(); k == "f" || k == "d" {
+			disturbed = true
+		}
+	}
+	return launched >= 2 && oks >= 1 && disturbed
+}
+
+// shrink: drop one step; drop the last caller when no step names it.
+func shrinkCands(input string) []string {
+	in, err := sx.Parse(input)
+	if err != nil {
+		return nil
+	}
+	var out []string
+	n := in.At(0).Int()
+	steps := in.At(2).List
+	for i := range steps {
+		s := append(append([]*sx.Node{}, steps[:i]...), steps[i+1:]...)
+		out = append(out, mkInput(n, in.At(1), s))
+	}
+	if n > 1 {
+		used := false
+		for _, st := range steps {
+			if k := st.At(0).Str(); k != "f" && k != "d" && st.At(1).Int() == n-1 {
+				used = true
+			}
+		}
+		if !used {
+			out = append(out, mkInput(n-1, in.At(1), steps))
+		}
+	}
+	return out
+}
+
+func init() {
+	fw.Register(&fw.Property{
+		ID:         "C07",
+		Generate:   generate,
+		RunImpl:    runImpl,
+		Nontrivial: nontrivial,
+		Rule: "model schedules replayed exactly on the real cfgbackend.ConsulSource.GetNextUInt32 / local.Service.NewRunNumber against an " +
+			"in-process Consul KV HTTP simulator that parks every request and releases them in schedule order. EXHAUSTIVE: every " +
+			"interleaving of the read/CAS steps of n complete calls with k extra events (foreign put lower/equal/higher/junk/empty, delete, " +
+			"crash c, HTTP-500 for c) inserted at every position, from an absent key and from \"41\": (n,k) = (1,<=2) (2,<=2) (3,<=1) (4,0); " +
+			"thorough adds (3,2) (4,1) (5,0) from \"41\"; (2,<=1) and (3,0) at 2^32-2 and 2^32-1. RANDOM: 6000 (thorough 100000) schedules, " +
+			"1..8 (12) callers, <=30 (60) steps, foreign writes (65% non-lowering, 20% lowering, 15% junk), deletes, crashes, HTTP failures, " +
+			"no-op steps, initial key absent/number/near-wrap/junk. non-trivial = >=2 calls launched, >=1 number handed out and the calls " +
+			"were disturbed (refused CAS, error, dead/pending caller or foreign write/delete); distinct by input text",
+		Shrink:   shrinkCands,
+		Workers:  nRigs,
+		Setup:    setup,
+		Teardown: teardown,
+		TrustedBase: []string{
+			"harness/props/c07 Consul KV simulator (consul.go): index per write, cas semantics of kvsSetCASTxn, linearizable consistent GET",
+			"harness/props/c07 controller (exec.go): one caller runs at a time, so requests are attributed without tagging",
+			"github.com/hashicorp/consul/api client (real, unmodified) and net/http on loopback",
+		},
+		Assumptions: []string{
+			"Consul itself: a consistent-mode GET is linearizable, ModifyIndex grows with every write, PUT ?cas= is atomic (the simulator and the Lean model implement exactly this)",
+			"ForeignMonotone: nobody else lowers or deletes the counter (stated as a hypothesis of the theorems; cases violating it are executed and compared with the model, Spec is vacuous for them)",
+			"remote apricot (gRPC proxy in front of local.Service) adds no retry: one NewRunNumber RPC = one GetNextUInt32 call",
+		},
+	})
+	fw.RegisterGen(fw.GenFile{Name: "C07Facts.lean", Make: genFacts})
+}
